@@ -172,6 +172,46 @@ def make_line(present):
     return fn
 
 
+def _row(v, r):
+    if isinstance(v, pd.Series):
+        return v.iloc[r]
+    if isinstance(v, np.ndarray) and v.ndim == 0:
+        return v[()]
+    if isinstance(v, (np.ndarray, list, tuple)):
+        return v[r] if len(v) > r else None
+    return v
+
+
+def make_line_list(present_per_type):
+    """create_lines with one standard type per line (a list), types with different sets of optional keys, against one create_line per line"""
+    def fn(ctx):
+        lc = ctx.load("pandapower.create.line_create")
+        net = pp.create_empty_network()
+        b0 = pp.create_bus(net, 20.)
+        b1 = pp.create_bus(net, 20.)
+        n = len(present_per_type)
+        for k, present in enumerate(present_per_type):
+            net.std_types["line"][f"SYM{k}"] = {kk: (ctx.var(f"t{k}_{kk}", 0.1, 200.) if not isinstance(v, str) else v)
+                                                 for kk, v in _std(ctx, LINE_REQ, LINE_OPT_NUM, LINE_OPT_CONC, present).items()}
+        lengths = [ctx.var(f"length_km{k}", 0.01, 100.) for k in range(n)]
+        singles, raw = [], {}
+
+        def set_multiple(net_, tab, index, preserve_dtypes=True, defaults_to_fill=None, entries=None):
+            raw.update(entries or {})
+        for k in range(n):
+            single, _, cm = _capture(ctx, lc, "line")
+            with cm:
+                lc.create_line(net, b0, b1, lengths[k], f"SYM{k}")
+            singles.append(single)
+        _, _, cm = _capture(ctx, lc, "line")
+        with cm, patched(lc, _set_multiple_entries=set_multiple):
+            lc.create_lines(net, [b0] * n, [b1] * n, lengths if not ctx.symbolic else ctx.array(lengths), [f"SYM{k}" for k in range(n)])
+        ctx.true("both_reached_table", all(bool(x) for x in singles) and bool(raw))
+        for k in range(n):
+            _compare(ctx, singles[k], {kk: _row(v, k) for kk, v in raw.items()}, f"line{k}")
+    return fn
+
+
 def instances(tier):
     out = []
     all_t = set(TRAFO_OPT_NUM) | set(TRAFO_OPT_CONC)
@@ -195,6 +235,12 @@ def instances(tier):
         patsl += [(f"without_{k}", all_l - {k}) for k in sorted(all_l - zero)] + [("without_zero_sequence", all_l - zero)]
     for nm, pr in patsl:
         out.append(Inst(f"line_{nm}", make_line(pr), nvars=16, samples=2, meta=dict(kind="line", present=sorted(pr))))
+    zero = {"r0_ohm_per_km", "x0_ohm_per_km", "c0_nf_per_km"}
+    mixes = [("zero_sequence_in_first_only", [all_l, all_l - zero]), ("zero_sequence_in_second_only", [set(), all_l])]
+    if tier == "thorough":
+        mixes += [("alpha_in_one_only", [all_l - {"alpha"}, all_l]), ("three_types", [all_l, set(), all_l - zero])]
+    for nm, prs in mixes:
+        out.append(Inst(f"lines_type_list_{nm}", make_line_list(prs), nvars=40, samples=2, meta=dict(kind="line", std_type="list", present=[sorted(p) for p in prs])))
     return out
 
 
